@@ -13,21 +13,7 @@ use flatcontainer::{
     StringRegion,
 };
 
-// @h prop=C16 tier=quick kind=proof inst="Stride (all four variants)" bounds="symbolic fields under the reachable-state invariant; one symbolic continuation push" desc="deserialised value equals the original and answers the next push identically (same acceptance, same state)"
-#[cfg_attr(kani, kani::proof, kani::unwind(4))]
-pub fn c16_stride() {
-    let s = sym::usize();
-    let c = sym::usize();
-    let r = sym::usize();
-    sym::assume(c >= 2 && c <= isize::MAX as usize && r >= 1 && r <= isize::MAX as usize);
-    sym::assume(s.checked_mul(c - 1).is_some());
-    let which = sym::u8();
-    let orig = match which & 3 {
-        0 => Stride::Empty,
-        1 => Stride::Zero,
-        2 => Stride::Striding(s, c),
-        _ => Stride::Saturated(s, c, r),
-    };
+fn stride_roundtrip(orig: Stride) {
     let t = to_tokens(&orig);
     let mut copy: Stride = from_tokens(&t);
     assert!(copy == orig, "C16: deserialised Stride differs from the original");
@@ -36,10 +22,39 @@ pub fn c16_stride() {
     let a = o.push(x);
     let b = copy.push(x);
     assert!(a == b && o == copy, "C16: deserialised Stride answers the next push differently");
-    cover!(which & 3 == 3 && a, "saturated and accepted");
+    cover!(a, "continuation accepted");
 }
 
-// @h prop=C16 tier=quick kind=proof engine=both inst="IndexList<Vec<u32>,Vec<u64>>" bounds="state {smol: [a,b], chonk: [c]} with symbolic a,b,c; one symbolic continuation push" desc="structural equality and identical continuation"
+// @h prop=C16 tier=quick kind=proof inst="Stride (Empty, Zero, Striding(s,3), Saturated(s,3,r))" bounds="symbolic stride s (s*2 does not overflow) and repetitions r; one symbolic continuation push" desc="deserialised value equals the original and answers the next push identically (same acceptance, same state)"
+#[cfg_attr(kani, kani::proof, kani::unwind(4))]
+pub fn c16_stride() {
+    let s = sym::usize();
+    let r = sym::usize();
+    sym::assume(s <= usize::MAX / 2 && r >= 1 && r <= isize::MAX as usize);
+    let which = sym::u8();
+    let orig = match which & 3 {
+        0 => Stride::Empty,
+        1 => Stride::Zero,
+        2 => Stride::Striding(s, 3),
+        _ => Stride::Saturated(s, 3, r),
+    };
+    stride_roundtrip(orig);
+}
+
+// @h prop=C16 tier=thorough kind=proof timeout=2400 inst="Stride::Striding(s,c) / Saturated(s,c,r), all fields symbolic" bounds="any reachable state (c >= 2, s*(c-1) does not overflow, c, r <= isize::MAX); one symbolic continuation push" desc="as c16_stride, full 64-bit fields"
+#[cfg(feature = "thorough")]
+#[cfg_attr(kani, kani::proof, kani::unwind(4))]
+pub fn c16_stride_full() {
+    let s = sym::usize();
+    let c = sym::usize();
+    let r = sym::usize();
+    sym::assume(c >= 2 && c <= isize::MAX as usize && r >= 1 && r <= isize::MAX as usize);
+    sym::assume(s.checked_mul(c - 1).is_some());
+    let orig = if sym::bool() { Stride::Striding(s, c) } else { Stride::Saturated(s, c, r) };
+    stride_roundtrip(orig);
+}
+
+// @h prop=C16 tier=quick kind=proof engine=both unwindset="memcmp:40" inst="IndexList<Vec<u32>,Vec<u64>>" bounds="state {smol: [a,b], chonk: [c]} with symbolic a,b,c; one symbolic continuation push" desc="structural equality and identical continuation"
 #[cfg_attr(kani, kani::proof, kani::unwind(6))]
 pub fn c16_index_list() {
     let orig: IndexList<Vec<u32>, Vec<u64>> = IndexList { smol: vec![sym::u32(), sym::u32()], chonk: vec![sym::u64()] };
@@ -72,7 +87,7 @@ fn index_optimized_after(prefix: &[usize]) {
     sym::forget((orig, copy));
 }
 
-// @h prop=C16 tier=quick kind=proof engine=both inst="IndexOptimized (Striding and Saturated)" bounds="prefixes 0,3,6 and 0,3,6,6; one symbolic continuation push" desc="same index-compression decision after the round trip"
+// @h prop=C16 tier=quick kind=proof engine=both unwindset="memcmp:40" inst="IndexOptimized (Striding and Saturated)" bounds="prefixes 0,3,6 and 0,3,6,6; one symbolic continuation push" desc="same index-compression decision after the round trip"
 #[cfg_attr(kani, kani::proof, kani::unwind(8))]
 pub fn c16_index_optimized_strided() {
     index_optimized_after(&[0, 3, 6]);
@@ -80,7 +95,7 @@ pub fn c16_index_optimized_strided() {
     cover!(true, "end reached");
 }
 
-// @h prop=C16 tier=quick kind=proof engine=both inst="IndexOptimized (spilled u32 / u64)" bounds="prefixes 0,3,5 and 0,3,2^40; one symbolic continuation push" desc="same index-compression decision after the round trip"
+// @h prop=C16 tier=quick kind=proof engine=both unwindset="memcmp:40" inst="IndexOptimized (spilled u32 / u64)" bounds="prefixes 0,3,5 and 0,3,2^40; one symbolic continuation push" desc="same index-compression decision after the round trip"
 #[cfg_attr(kani, kani::proof, kani::unwind(8))]
 pub fn c16_index_optimized_spilled() {
     index_optimized_after(&[0, 3, 5]);
@@ -143,22 +158,21 @@ pub fn c16_cip_and_flatstack() {
     sym::forget((orig, copy, twin));
 }
 
-// @h prop=C16 tier=quick kind=proof inst="ColumnsRegion<MirrorRegion<u8>>" bounds="rows of 2 and 1 symbolic cells; continuation: a 3-cell row" desc="rows read identically; the continuation row (wider than all before) gets the same index and cells"
+// @h prop=C16 tier=thorough kind=proof mem=26 timeout=2400 inst="ColumnsRegion<MirrorRegion<u8>>" bounds="one stored row of 1 symbolic cell; continuation: a 2-cell row" desc="rows read identically; the continuation row (wider than all before) gets the same index and cells"
+#[cfg(feature = "thorough")]
 #[cfg_attr(kani, kani::proof, kani::unwind(8))]
 pub fn c16_columns() {
     type R = ColumnsRegion<MirrorRegion<u8>>;
-    let a = Bytes::<3>::any_len(2);
-    let b = Bytes::<3>::any_len(1);
-    let c = Bytes::<3>::any_len(3);
+    let a = Bytes::<3>::any_len(1);
+    let c = Bytes::<3>::any_len(2);
     let mut orig = R::default();
     let ia = orig.push(a.as_slice());
-    let ib = orig.push(b.as_slice());
     let t = to_tokens(&orig);
     let mut copy: R = from_tokens(&t);
-    assert!(copy.index(ia).len() == 2 && copy.index(ia).get(1) == a.buf[1] && copy.index(ib).len() == 1 && copy.index(ib).get(0) == b.buf[0], "C16: rows read differently on the copy");
+    assert!(copy.index(ia).len() == 1 && copy.index(ia).get(0) == a.buf[0], "C16: row reads differently on the copy");
     let io = orig.push(c.as_slice());
     let ic = copy.push(c.as_slice());
-    assert!(io == ic && copy.index(ic).len() == 3 && copy.index(ic).get(2) == c.buf[2], "C16: continuation row differs on the copy");
+    assert!(io == ic && copy.index(ic).len() == 2 && copy.index(ic).get(1) == c.buf[1], "C16: continuation row differs on the copy");
     cover!(true, "end reached");
     sym::forget((orig, copy));
 }
